@@ -222,6 +222,11 @@ def enumerate_cases(tier, shard, nshards, seed):
 
         yield case
 
+    for case in em.slice_edit_grid(gen.TRIVIA_PROGRAMS, tier, shard, nshards, seed, optsets=({},), thin=2 if tier == 'quick' else 1):
+        st0 = {**case['steps'][0], 'qmode': 4, 'qsel': 0}
+        # a second slice edit on the same container after the first: positions computed from a stale cached location go wrong here
+        yield {**case, 'steps': [st0, {**st0, 'op': 'append', 'dsel': 1}]}
+
     for case in em.ancestor_two_step_grid(gen.TRIVIA_PROGRAMS, tier, shard, nshards, seed, thin=3 if tier == 'quick' else 1):
         for st_ in case['steps']:
             st_.update(qmode=4, qsel=0)
